@@ -300,7 +300,9 @@ class Merger:
             return rhs
 
         tagless_lhs = Nodes.tagless_elements(lhs)
-        for idx, ele in enumerate(rhs):
+        # Iterate over a snapshot:  LHS and RHS can be the very same list (an
+        # equal anchor in both documents makes LHS adopt the RHS node).
+        for idx, ele in enumerate(list(rhs)):
             path_next = path + "[{}]".format(idx)
             self.logger.debug(
                 "Processing element {} at {}.".format(idx, path_next),
@@ -380,7 +382,7 @@ class Merger:
         if merge_mode is AoHMergeOpts.RIGHT:
             return rhs
 
-        for idx, ele in enumerate(rhs):
+        for idx, ele in enumerate(list(rhs)):
             path_next = path + "[{}]".format(idx)
             self.logger.debug(
                 "Processing element #{} at {}.".format(idx, path_next),
